@@ -5,8 +5,6 @@
    property-package reset and the reset_chemicals round trip).  [final] is the heap after the history. *)
 From V Require Import Common.NumFacts C11.Model C11.Proofs.
 
-Definition Vf_respects_eq (Vf : nat -> phase -> Q -> Q -> Q) : Prop :=
-  forall g p T T' P P', T == T' -> P == P' -> Vf g p T P == Vf g p T' P'.
 Definition final Vf MWf pkgs utab (l : list init) (ops : list op) : heap :=
   fst (run Vf MWf pkgs utab (build l) ops).
 
@@ -14,7 +12,7 @@ Definition final Vf MWf pkgs utab (l : list init) (ops : list op) : heap :=
    dicts in the current phase order, takes T/P from the stream's own ThermalCondition object, the phase from
    the stream's own phase box / phase labels, MW and V from the stream's own package; and streams that share
    one cache dict share data, phases / phase box and package. *)
-Theorem C11_alias_inv : forall Vf MWf pkgs utab l ops, Vf_respects_eq Vf ->
+Theorem C11_alias_inv : forall Vf MWf pkgs utab l ops,
   let h := final Vf MWf pkgs utab l ops in
   forall i s, nth_error (streams h) i = Some s ->
     (forall v, c_mass (getcache h (cch s)) = Some v -> mv_rows v = srcs h s /\ mv_pkg v = pkg s) /\
@@ -23,8 +21,8 @@ Theorem C11_alias_inv : forall Vf MWf pkgs utab l ops, Vf_respects_eq Vf ->
     (forall j s2, nth_error (streams h) j = Some s2 -> cch s = cch s2 ->
        srcs h s = srcs h s2 /\ pkg s = pkg s2).
 Proof.
-  intros Vf MWf pkgs utab l ops E h i s Hs.
-  pose proof (inv_run Vf MWf pkgs utab E ops (build l) (inv_build Vf pkgs l)) as I.
+  intros Vf MWf pkgs utab l ops h i s Hs.
+  pose proof (inv_run Vf MWf pkgs utab ops (build l) (inv_build Vf pkgs l)) as I.
   destruct (I i s Hs) as (_ & (VM & VV) & SH). split; [|split].
   - intros v Hv. exact (VM v Hv).
   - intros v Hv. destruct (VV v Hv) as (A & B & C & _). auto.
@@ -35,42 +33,54 @@ Qed.
 Print Assumptions C11_alias_inv.
 
 (* the full invariant (including: every memo entry is the oracle's value for its key) holds after every history *)
-Theorem C11_invariant_all_histories : forall Vf MWf pkgs utab l ops, Vf_respects_eq Vf ->
+Theorem C11_invariant_all_histories : forall Vf MWf pkgs utab l ops,
   Inv Vf pkgs (final Vf MWf pkgs utab l ops).
-Proof. intros Vf MWf pkgs utab l ops E. exact (inv_run Vf MWf pkgs utab E ops (build l) (inv_build Vf pkgs l)). Qed.
+Proof. intros Vf MWf pkgs utab l ops. exact (inv_run Vf MWf pkgs utab ops (build l) (inv_build Vf pkgs l)). Qed.
 Print Assumptions C11_invariant_all_histories.
 
 (* vol_get: after any history, reading the volumetric view gives, for every row (molar dict d, phase source src)
-   of the stream and every chemical j:  mol * 1000 * Vf chemical (CURRENT phase) (CURRENT T) (CURRENT P). *)
-Theorem C11_vol_get : forall Vf MWf pkgs utab l ops, Vf_respects_eq Vf ->
+   of the stream and every chemical j:  mol * 1000 * Vf chemical (CURRENT phase) T' P'  where (T', P') is the
+   temperature and pressure at which the memo entry was computed, within 1e-12 (ThermalCondition.in_equilibrium,
+   [tp_tol] is the double 1e-12) of the stream's CURRENT T and P.  The phase is exact. *)
+Theorem C11_vol_get : forall Vf MWf pkgs utab l ops,
+  let h := final Vf MWf pkgs utab l ops in
+  forall i s, nth_error (streams h) i = Some s ->
+  forall n d src, nth_error (srcs h s) n = Some (d, src) -> forall j,
+  exists T' P', Qabs (T' - fst (gettp h (tc s))) < tp_tol /\ Qabs (P' - snd (gettp h (tc s))) < tp_tol /\
+    nthq (nth n (snd (read_vol Vf pkgs h s)) []) j
+    == nthq (getrow h d) j * (1000 * Vf (gid pkgs (pkg s) j) (base (src_phase h src)) T' P').
+Proof.
+  intros Vf MWf pkgs utab l ops h i s Hs.
+  exact (vol_get_lemma Vf pkgs h i s (inv_run Vf MWf pkgs utab ops (build l) (inv_build Vf pkgs l)) Hs).
+Qed.
+Print Assumptions C11_vol_get.
+
+(* the exact statement (at the current T, P) is what the deliberate 1e-12 tolerance of in_equilibrium gives up;
+   it is kept visible and is NOT claimed *)
+Definition C11_vol_get_exact_statement : Prop := forall Vf MWf pkgs utab l ops,
   let h := final Vf MWf pkgs utab l ops in
   forall i s, nth_error (streams h) i = Some s ->
   forall n d src, nth_error (srcs h s) n = Some (d, src) -> forall j,
     nthq (nth n (snd (read_vol Vf pkgs h s)) []) j
     == nthq (getrow h d) j *
        (1000 * Vf (gid pkgs (pkg s) j) (base (src_phase h src)) (fst (gettp h (tc s))) (snd (gettp h (tc s)))).
-Proof.
-  intros Vf MWf pkgs utab l ops E h i s Hs.
-  exact (vol_get_lemma Vf pkgs E h i s (inv_run Vf MWf pkgs utab E ops (build l) (inv_build Vf pkgs l)) Hs).
-Qed.
-Print Assumptions C11_vol_get.
 
 (* mass_get: after any history, the mass view of a (well-sized) row is mol * MW entry by entry *)
-Theorem C11_mass_get : forall Vf MWf pkgs utab l ops, Vf_respects_eq Vf ->
+Theorem C11_mass_get : forall Vf MWf pkgs utab l ops,
   let h := final Vf MWf pkgs utab l ops in
   forall i s, nth_error (streams h) i = Some s ->
   forall n d src, nth_error (srcs h s) n = Some (d, src) ->
   length (getrow h d) = length (mwvec MWf pkgs (pkg s)) -> forall j,
     nthq (nth n (snd (read_mass MWf pkgs h s)) []) j == nthq (getrow h d) j * nthq (mwvec MWf pkgs (pkg s)) j.
 Proof.
-  intros Vf MWf pkgs utab l ops E h i s Hs.
-  exact (mass_get_lemma Vf MWf pkgs h i s (inv_run Vf MWf pkgs utab E ops (build l) (inv_build Vf pkgs l)) Hs).
+  intros Vf MWf pkgs utab l ops h i s Hs.
+  exact (mass_get_lemma Vf MWf pkgs h i s (inv_run Vf MWf pkgs utab ops (build l) (inv_build Vf pkgs l)) Hs).
 Qed.
 Print Assumptions C11_mass_get.
 
 (* mass_set: after any history, writing v through the mass view makes mol = v / MW at that entry and changes no
    other entry of any molar dict *)
-Theorem C11_mass_set : forall Vf MWf pkgs utab l ops, Vf_respects_eq Vf ->
+Theorem C11_mass_set : forall Vf MWf pkgs utab l ops,
   let h := final Vf MWf pkgs utab l ops in
   forall i s r k v d src, nth_error (streams h) i = Some s -> nth_error (srcs h s) r = Some (d, src) ->
   (d < length (rows h))%nat -> (k < length (getrow h d))%nat ->
@@ -79,9 +89,9 @@ Theorem C11_mass_set : forall Vf MWf pkgs utab l ops, Vf_respects_eq Vf ->
   forall d' k', (d', k') <> (d, k) ->
     nthq (getrow (fst (set_item Vf MWf pkgs h s VMass r k v)) d') k' == nthq (getrow h d') k'.
 Proof.
-  intros Vf MWf pkgs utab l ops E h i s r k v d src Hs Hr D K.
+  intros Vf MWf pkgs utab l ops h i s r k v d src Hs Hr D K.
   exact (mass_set_lemma Vf MWf pkgs h i s r k v d src
-           (inv_run Vf MWf pkgs utab E ops (build l) (inv_build Vf pkgs l)) Hs Hr D K).
+           (inv_run Vf MWf pkgs utab ops (build l) (inv_build Vf pkgs l)) Hs Hr D K).
 Qed.
 Print Assumptions C11_mass_set.
 
@@ -92,12 +102,15 @@ Theorem C11_totals_mass : forall MWf pkgs h s,
 Proof. intros. split; [reflexivity|apply F_mass_is_sum]. Qed.
 Print Assumptions C11_totals_mass.
 
-(* F_vol == sum of the volumetric view: stated, not proved in this round (holds when F_mol <> 0; see report) *)
-Definition C11_totals_vol_statement : Prop := forall Vf pkgs h s, ~ F_mol h s == 0 ->
+(* F_vol (1000 * mixture molar volume at the current T, P, phases * F_mol) is the sum over rows and chemicals of
+   mol * 1000 * Vf at the current phase, T, P, whenever the total molar flow is not zero *)
+Theorem C11_totals_vol : forall Vf pkgs h s, ~ F_mol h s == 0 ->
   F_vol Vf pkgs h s ==
   qsum (map (fun x => qsum (map2 (fun m g => m * (1000 * Vf g (base (src_phase h (snd x)))
                                                      (fst (gettp h (tc s))) (snd (gettp h (tc s)))))
                                  (getrow h (fst x)) (chems pkgs (pkg s)))) (srcs h s)).
+Proof. exact F_vol_is_sum. Qed.
+Print Assumptions C11_totals_vol.
 
 (* units: a unit of another dimension is rejected with DimensionError and nothing changes;
    get_flow / get_total_flow are the fixed factor times the view item / the total *)
@@ -131,6 +144,32 @@ Proof.
 Qed.
 Print Assumptions C11_units_other_unit.
 
+(* set then get in the same unit is the identity, for every view (molar, mass, volumetric), after any history:
+   set_flow(v, u, key) succeeds and get_flow(u, key) then returns v *)
+Theorem C11_units_set_then_get : forall Vf MWf pkgs utab l ops,
+  (forall g, ~ MWf g == 0) -> (forall g p T P, ~ Vf g p T P == 0) ->
+  let h := final Vf MWf pkgs utab l ops in
+  forall i s u w f r k v d src,
+  nth_error (streams h) i = Some s -> unit_of utab u = Some (w, f) -> ~ f == 0 ->
+  nth_error (srcs h s) r = Some (d, src) -> (d < length (rows h))%nat -> (k < length (getrow h d))%nat ->
+  snd (step Vf MWf pkgs utab h (OSetFlow i u r k v)) = XNone /\
+  exists h2 x, step Vf MWf pkgs utab (fst (step Vf MWf pkgs utab h (OSetFlow i u r k v))) (OGetFlow i u r k)
+               = (h2, XMat [[x]]) /\ x == v.
+Proof.
+  intros Vf MWf pkgs utab l ops MW VN h i s u w f r k v d src Hs U NZ Hr D K.
+  pose proof (inv_run Vf MWf pkgs utab ops (build l) (inv_build Vf pkgs l)) as I. fold (final Vf MWf pkgs utab l ops) in I. fold h in I.
+  destruct (set_get_item Vf MWf pkgs MW VN h i s w r k (v / f) d src I Hs Hr D K) as (S1 & h2 & x & G & X).
+  assert (E1 : step Vf MWf pkgs utab h (OSetFlow i u r k v) = set_item Vf MWf pkgs h s w r k (v / f)).
+  { unfold step. rewrite Hs, U. reflexivity. }
+  rewrite E1. split; [exact S1|].
+  assert (E2 : step Vf MWf pkgs utab (fst (set_item Vf MWf pkgs h s w r k (v / f))) (OGetFlow i u r k)
+               = lift (get_item Vf MWf pkgs (fst (set_item Vf MWf pkgs h s w r k (v / f))) s w r k) (fun y => f * y)).
+  { unfold step. rewrite set_item_streams, Hs, U. reflexivity. }
+  rewrite E2. unfold lift. rewrite G. cbn [fst snd].
+  exists h2, (f * x). split; [reflexivity|]. rewrite X. field. exact NZ.
+Qed.
+Print Assumptions C11_units_set_then_get.
+
 (* set_total_keeps_composition: a total-flow setter multiplies every entry of every molar dict of the stream by one
    and the same number (v / F), so the composition is unchanged *)
 Theorem C11_set_total_keeps_composition : forall Vf MWf pkgs h s w v,
@@ -155,9 +194,6 @@ Definition exL : list init :=
 Definition exOps : list op :=
   [ORead 0 VMass; ORead 0 VVol; OLink 2 0 true true true; OUnlink 0; OPhase 0 Pg; OPhase 2 Ps; ORead 1 VMass;
    OCopyLike 1 2; ORoundTrip 1 1; OThermo 0 1; OSet 0 VMass 0 1 4; ORead 0 VVol; ORead 1 VVol; ORead 1 VMass].
-
-Example C11_exV_respects_eq : Vf_respects_eq exV.
-Proof. intros g p T T' P P' ET EP. unfold exV. rewrite ET. reflexivity. Qed.
 
 (* the history runs without leaving the modelled domain, ends with cached mass and volumetric views for streams 0 and 1
    (so the conclusions of alias_inv / vol_get / mass_get talk about existing views), stream 1 has three phases after the
